@@ -31,12 +31,12 @@ pub fn compare_nodes(lib: &[Node], reference: &[Node]) -> Result<(), String> {
 /// Everything reachable lies inside [0, n) and containers satisfy len <= cap (len is implied by children).
 pub fn nodes_inside(nodes: &[Node], n: usize) -> Result<(), String> {
     for nd in nodes {
-        if nd.off > n || nd.off + nd.len > n {
+        if nd.off > n || nd.off.checked_add(nd.len).map_or(true, |e| e > n) {
             return Err(format!(
                 "node {:?} occupies [{}, {}) which is outside the {}-byte slice",
                 nd.path,
                 nd.off as isize,
-                (nd.off + nd.len) as isize,
+                nd.off.wrapping_add(nd.len) as isize,
                 n
             ));
         }
@@ -105,7 +105,11 @@ pub fn show_err(e: &FErr) -> String {
 pub fn sample_value(ty: &Ty, v: &Value, extra: J) -> J {
     let mut s = v.show();
     if s.len() > 300 {
-        s.truncate(300);
+        let mut cut = 300;
+        while !s.is_char_boundary(cut) {
+            cut -= 1;
+        }
+        s.truncate(cut);
         s.push_str("...");
     }
     json!({"shape": ty.short(), "value": s, "info": extra})
